@@ -329,3 +329,27 @@ func decodeB64(s string) ([]byte, error) {
 }
 
 var base64Std = base64.StdEncoding
+
+type bigInt = big.Int
+
+func pkixName(cn string) pkix.Name { return pkix.Name{CommonName: cn} }
+
+func nextPrime(n *big.Int) *big.Int {
+	p := new(big.Int).Set(n)
+	if p.Bit(0) == 0 {
+		p.Add(p, big.NewInt(1))
+	}
+	for !p.ProbablyPrime(20) {
+		p.Add(p, big.NewInt(2))
+	}
+	return p
+}
+
+// closePrimes returns primes p < q of the given bit size with q the first prime at least `gap` above p.
+func closePrimes(bits int, gap int64) (*big.Int, *big.Int) {
+	start := new(big.Int).Lsh(big.NewInt(3), uint(bits-2)) // 1.5 * 2^(bits-1)
+	start.Add(start, big.NewInt(12345))
+	p := nextPrime(start)
+	q := nextPrime(new(big.Int).Add(p, big.NewInt(gap)))
+	return p, q
+}
